@@ -644,6 +644,54 @@ func (c *spendCtx) buildOne(t *Tape, class string) {
 			explicit = append(explicit, coin.Op)
 			sum += coin.Amount
 		}
+		// sometimes one of the named inputs is not the selected wallet's: a
+		// coin of another wallet of the same node, or of nobody here. Such
+		// a request must be refused (checkBuilt flags a draft that spends
+		// a foreign output)
+		if t.Bool(20) {
+			var foreign []*Coin
+			for _, id := range inst.SortedWalletIDs() {
+				ows := inst.Wallets[id]
+				if ows == c.ws || ows.Removing {
+					continue
+				}
+				own := map[[32]byte]bool{}
+				for _, ia := range ows.Issued {
+					var h [32]byte
+					copy(h[:], ows.HD.Addr(ia.Index).ScriptHash)
+					own[h] = true
+				}
+				for _, coin := range ComputeLedger(w.Node.BestChain(), own).Coins {
+					if coin.SpendableAt(c.l.Tip) && coin.Class == ClassStd && c.l.Coins[coin.Op] == nil {
+						foreign = append(foreign, coin)
+					}
+				}
+			}
+			kind := "probe.explicit_input_of_another_local_wallet"
+			if len(foreign) == 0 || t.Bool(25) {
+				foreign = nil
+				kind = "probe.explicit_input_of_nobody_here"
+				tip := w.Node.Tip()
+				for _, gc := range sortedCoins(w.Gen.utxoAt(tip)) {
+					if gc.owner < 2 && gc.cls == ClassStd && tip.Height+1 >= gc.height && tip.Height+1-gc.height >= gc.lock() {
+						foreign = append(foreign, &Coin{Op: gc.op, Amount: gc.value})
+					}
+				}
+			}
+			if len(foreign) > 0 {
+				sort.Slice(foreign, func(i, j int) bool { return foreign[i].Op.String() < foreign[j].Op.String() })
+				fc := foreign[t.Int(len(foreign))]
+				if !seen[fc.Op] {
+					seen[fc.Op] = true
+					in := &masswallet.TxIn{TxId: fc.Op.Hash.String(), Vout: fc.Op.Index}
+					at := t.Int(len(inputs) + 1)
+					inputs = append(inputs[:at], append([]*masswallet.TxIn{in}, inputs[at:]...)...)
+					explicit = append(explicit[:at], append([]wire.OutPoint{fc.Op}, explicit[at:]...)...)
+					sum += fc.Amount
+					w.Stat(kind)
+				}
+			}
+		}
 		// 1-4 distinct recipients sharing the payment; a random non-empty
 		// subset of them bears the fee (in equal shares) when subtract is set
 		pay := sum * int64(20+t.Int(70)) / 100
